@@ -18,6 +18,7 @@ package ice
 //@ func (*TCPMuxDefault).handleConn
 //@   props C15
 //@   requires conn != nil
+//@   requires mux-tables-exist: m != nil ==> m.connsIPv4 != nil && m.connsIPv6 != nil
 //@   ghostvar closedCount int = 0
 //@   ghostvar attached bool = false
 //@   ghostvar parts0 int = 0
@@ -43,3 +44,61 @@ package ice
 // alive timer; further incoming connections never do.
 //@ enumerate C15 calls ice.(*tcpPacketConn).ClearAliveTimer in (*TCPMuxDefault).GetConnByUfrag
 //@ enumerate C15 stores ice.tcpPacketConn.aliveTimer in newTCPPacketConn
+
+// Lookup and registration are keyed by (family, ufrag, local IP string).
+//@ func (*TCPMuxDefault).getConn
+//@   props C15
+//@   modifies nothing
+//@   ghostvar key int = 0
+//@   site call String#1 assert key-is-the-local-ip: arg0 == local
+//@   site call String#1 ghost key := result
+//@   ensures found-only-under-family-ufrag-and-local-ip: ok && val != nil ==> has(ite(isIPv6, m.connsIPv6, m.connsIPv4), ufrag) && has(ite(isIPv6, m.connsIPv6, m.connsIPv4)[ufrag], key) && val == ite(isIPv6, m.connsIPv6, m.connsIPv4)[ufrag][key]
+//@   ensures unknown-ufrag-finds-nothing: !has(ite(isIPv6, m.connsIPv6, m.connsIPv4), ufrag) ==> !ok && val == nil
+
+//@ func (*TCPMuxDefault).GetConnByUfrag
+//@   props C15
+//@   opt nosafety
+//@   requires mux-tables-exist: m.connsIPv4 != nil && m.connsIPv6 != nil
+//@   site call getConn#1 assert looks-up-what-was-asked: arg1 == ufrag && arg2 == isIPv6 && arg3 == local
+//@   site call ClearAliveTimer#1 assert claims-only-the-connection-found: ok && recv == conn
+//@   site call createConn#1 assert creates-a-permanent-connection-for-the-user: !ok && arg1 == ufrag && arg2 == isIPv6 && arg3 == local && arg4 == false
+//@   site call newSharedPacketConn#1 assert hands-out-a-handle-on-that-connection: arg0.payload == conn
+//@   ensures closed-mux-hands-out-nothing: old(m.closed) ==> result0 == nil && result1 != nil
+
+//@ func (*TCPMuxDefault).createConn
+//@   props C15
+//@   opt nosafety
+//@   requires mux-tables-exist: m.connsIPv4 != nil && m.connsIPv6 != nil
+//@   ghostvar key int = 0
+//@   site call String#1 assert key-is-the-local-ip: arg0 == local
+//@   site call String#1 ghost key := result
+//@   site call newTCPPacketConn#1 assert only-provisional-connections-expire: arg0.AliveDuration == ite(fromStun, m.params.AliveDurationForConnFromStun, 0)
+//@   ensures created: result1 == nil ==> result0 != nil
+//@   ensures registered-v6-under-ufrag-and-local-ip: result1 == nil && isIPv6 ==> has(m.connsIPv6, ufrag) && has(m.connsIPv6[ufrag], key) && m.connsIPv6[ufrag][key] == result0
+//@   ensures registered-v4-under-ufrag-and-local-ip: result1 == nil && !isIPv6 ==> has(m.connsIPv4, ufrag) && has(m.connsIPv4[ufrag], key) && m.connsIPv4[ufrag][key] == result0
+
+//@ func (*TCPMuxDefault).RemoveConnByUfrag
+//@   props C15
+//@   opt nosafety
+//@   requires m.connsIPv4 != nil && m.connsIPv6 != nil
+//@   site call closeAndLogError#1 assert closes-only-removed-connections: arg1.payload == conn
+//@   ensures ufrag-unregistered-in-both-families: !has(m.connsIPv4, ufrag) && !has(m.connsIPv6, ufrag)
+
+//@ func (*TCPMuxDefault).Close
+//@   props C15
+//@   opt nosafety
+//@   site call closeAndLogError#0 assert closes-only-registered-connections: arg1.payload == conn
+//@   site call Close#1 assert closes-the-listener: recv == m.params.Listener
+//@   ensures closed-and-emptied: m.closed && len(m.connsIPv4) == 0 && len(m.connsIPv6) == 0
+
+//@ func (*TCPMuxDefault).removeConnByUfragAndLocalHost
+//@   props C15
+//@   opt nosafety
+//@   site call closeAndLogError#1 assert closes-only-the-removed-connections: arg1.payload == conn
+//@   site call delete#1 assert removes-exactly-this-local-address: arg0 == conns && arg1 == localIPAddr
+//@   site call delete#3 assert removes-exactly-this-local-address-v6: arg0 == conns && arg1 == localIPAddr
+
+// Every store to the mux's closed flag and tables is in the functions above.
+//@ enumerate C15 stores ice.TCPMuxDefault.closed in (*TCPMuxDefault).Close
+//@ enumerate C15 stores ice.TCPMuxDefault.connsIPv4 in NewTCPMuxDefault, (*TCPMuxDefault).Close
+//@ enumerate C15 stores ice.TCPMuxDefault.connsIPv6 in NewTCPMuxDefault, (*TCPMuxDefault).Close
